@@ -90,8 +90,12 @@ type plannedOp struct {
 	// further steps (clock advances, other contenders act); the contender is busy meanwhile
 	StallNth   int `json:"stall_nth,omitempty"`
 	StallSteps int `json:"stall_steps,omitempty"`
-	kind  opKind
-	fault leasestore.Fault
+	// at the same moment the same instance calls its election of ANOTHER shard (one process runs the
+	// elections of all its shards over one lease client): Sib = kind of that call ("" = none)
+	Sib     string `json:"sibling_shard_call,omitempty"`
+	sibKind opKind
+	kind    opKind
+	fault   leasestore.Fault
 }
 
 type planStep struct {
@@ -234,6 +238,27 @@ func makePlan(r *harness.Run, idx int) *plan {
 			}
 		}
 	}
+	// concurrent call of the same instance on its election of another shard (own PRNG stream)
+	brng := r.Rand(fmt.Sprintf("sibling-%d", idx))
+	for si := range p.Steps {
+		for oi := range p.Steps[si].Ops {
+			o := &p.Steps[si].Ops[oi]
+			if o.fault != leasestore.FaultNone || o.StallNth > 0 || brng.Intn(100) >= 35 {
+				continue
+			}
+			switch w := brng.Intn(100); {
+			case w < 40:
+				o.sibKind = kCampaign
+			case w < 75:
+				o.sibKind = kRenew
+			case w < 90:
+				o.sibKind = kResign
+			default:
+				o.sibKind = kLeader
+			}
+			o.Sib = o.sibKind.String()
+		}
+	}
 	return p
 }
 
@@ -251,6 +276,7 @@ type opRec struct {
 	Ret     int64  `json:"ret"`
 	Fault   string `json:"fault,omitempty"`
 	Stall   string `json:"late_delivery,omitempty"`
+	Shard   string `json:"shard,omitempty"` // "sibling": the call went to the instance's election of the other shard
 	Outcome string `json:"outcome"`
 	Err     string `json:"err,omitempty"`
 	Before  string `json:"store_before"`
@@ -258,6 +284,7 @@ type opRec struct {
 	Reached bool   `json:"reached_store"`
 
 	kind    opKind
+	key     string // lease key of the election the call went to
 	out     modelOut
 	role    cluster.ClusterRole
 	err     error
@@ -271,6 +298,7 @@ type contender struct {
 	tag       string
 	cl        cluster.Cluster
 	el        cluster.Election
+	el2       cluster.Election // the same instance's election of another shard, same lease client
 	broken    bool
 	believes  bool
 	since     int64
@@ -384,10 +412,13 @@ func (h *history) connect(c *contender) bool {
 	}
 	c.cl = cl
 	c.el = cl.NewElection(context.Background(), h.p.Key, c.id)
+	c.el2 = cl.NewElection(context.Background(), h.sibKey(), c.id)
 	c.broken = false
 	h.r.Count("connections", 1)
 	return true
 }
+
+func (h *history) sibKey() string { return h.p.Key + "sibling-shard/" }
 
 func stateOf(k leasestore.KeyState) leaseState {
 	if !k.Exists {
@@ -535,6 +566,7 @@ func (h *history) burst(si int, step *planStep) bool {
 	}
 	st.ClearFaults()
 	init := stateOf(st.Peek(h.p.Key))
+	init2 := stateOf(st.Peek(h.sibKey()))
 	mark := st.LogLen()
 
 	recs := make([]*opRec, len(step.Ops))
@@ -542,7 +574,7 @@ func (h *history) burst(si int, step *planStep) bool {
 	var stall *leasestore.Stall
 	for i, o := range step.Ops {
 		c := h.cs[o.C]
-		recs[i] = &opRec{Step: si, C: o.C, ID: c.id, Tag: c.tag, Kind: o.Kind, kind: o.kind, VT: now}
+		recs[i] = &opRec{Step: si, C: o.C, ID: c.id, Tag: c.tag, Kind: o.Kind, kind: o.kind, key: h.p.Key, VT: now}
 		if o.fault != leasestore.FaultNone && !c.broken {
 			st.FaultNext(c.tag, o.fault)
 			recs[i].Fault = o.Fault
@@ -565,6 +597,28 @@ func (h *history) burst(si int, step *planStep) bool {
 	var wg sync.WaitGroup
 	start := make(chan struct{})
 	opDone := make([]chan struct{}, len(step.Ops))
+	call := func(rec *opRec, el cluster.Election) {
+		<-start
+		ctx := context.Background()
+		rec.Call = h.lclock.Add(1)
+		switch rec.kind {
+		case kCampaign:
+			rec.role, rec.err = el.Campaign(ctx)
+		case kRenew:
+			rec.err = el.Renew(ctx)
+		case kResign:
+			rec.err = el.Resign(ctx)
+		case kLeader:
+			var ri *cluster.RoleInfo
+			ri, rec.err = el.Leader(ctx)
+			if ri != nil {
+				rec.out.Addr = ri.Address
+			}
+		}
+		rec.Ret = h.lclock.Add(1)
+	}
+	var sibs []*opRec
+	sibOf := map[int]bool{}
 	for i := range step.Ops {
 		opDone[i] = make(chan struct{})
 		if i != stallIdx {
@@ -575,25 +629,16 @@ func (h *history) burst(si int, step *planStep) bool {
 			if counted {
 				defer wg.Done()
 			}
-			<-start
-			ctx := context.Background()
-			rec.Call = h.lclock.Add(1)
-			switch rec.kind {
-			case kCampaign:
-				rec.role, rec.err = el.Campaign(ctx)
-			case kRenew:
-				rec.err = el.Renew(ctx)
-			case kResign:
-				rec.err = el.Resign(ctx)
-			case kLeader:
-				var ri *cluster.RoleInfo
-				ri, rec.err = el.Leader(ctx)
-				if ri != nil {
-					rec.out.Addr = ri.Address
-				}
-			}
-			rec.Ret = h.lclock.Add(1)
+			call(rec, el)
 		}(recs[i], h.cs[step.Ops[i].C].el, opDone[i], i != stallIdx)
+		o, c := step.Ops[i], h.cs[step.Ops[i].C]
+		if o.Sib != "" && i != stallIdx && !c.broken && o.fault == leasestore.FaultNone && !sibOf[o.C] {
+			sibOf[o.C] = true
+			sr := &opRec{Step: si, C: o.C, ID: c.id, Tag: c.tag, Kind: o.Sib, kind: o.sibKind, key: h.sibKey(), Shard: "sibling", VT: now}
+			sibs = append(sibs, sr)
+			wg.Add(1)
+			go func() { defer wg.Done(); call(sr, c.el2) }()
+		}
 	}
 	done := make(chan struct{})
 	go func() {
@@ -632,10 +677,12 @@ func (h *history) burst(si int, step *planStep) bool {
 		}
 	}
 	final := stateOf(st.Peek(h.p.Key))
+	final2 := stateOf(st.Peek(h.sibKey()))
 	entries := st.LogFrom(mark)
-	for _, rec := range recs {
+	for _, rec := range append(append([]*opRec{}, recs...), sibs...) {
 		for _, e := range entries {
-			if e.Tag == rec.Tag && e.Call > 0 {
+			// one instance's calls share a connection: a request belongs to the call on its key
+			if e.Tag == rec.Tag && e.Call > 0 && (e.Key == rec.key || (e.Key == "" && !sibOf[rec.C])) {
 				rec.entries = append(rec.entries, e)
 			}
 		}
@@ -645,10 +692,20 @@ func (h *history) burst(si int, step *planStep) bool {
 	for _, rec := range recs {
 		h.checkOp(rec, now)
 	}
+	for _, rec := range sibs {
+		h.checkOp(rec, now)
+		if rec.out.Open {
+			h.cs[rec.C].broken = true
+		}
+		h.r.Count("sibling_shard_calls", 1)
+	}
 	for _, rec := range recs {
 		h.updateBelief(rec, now)
 	}
 	h.linearizable(si, recs, init, final, now)
+	if len(sibs) > 0 {
+		h.linearizable(si, sibs, init2, final2, now)
+	}
 	h.r.Count("bursts", 1)
 	h.r.Count(fmt.Sprintf("burst_size_%d", len(recs)), 1)
 	h.r.Count("burst_mode_"+step.Mode, 1)
@@ -797,7 +854,7 @@ func (h *history) checkOp(rec *opRec, now int64) {
 	extra := map[string]any{"op": rec, "store_entries": rec.entries}
 	// every request the call issued, whether or not its reply reached the caller
 	for _, e := range rec.entries {
-		if !e.Executed || e.Key != h.p.Key {
+		if !e.Executed || e.Key != rec.key {
 			continue
 		}
 		hb := holderOf(e.Before)
